@@ -95,6 +95,7 @@ ReinterpV(R, v) ==
   Eager([a \in 1..Len(v) |-> Eager([t \in 1..Len(R) |->
      RSumSeq(Eager([k \in 1..Len(R[t]) |-> RMul(R[t][k], RInt(v[a][k]))]))])])
 AsRat(v) == Eager([a \in 1..Len(v) |-> Eager([j \in 1..Len(v[a]) |-> RInt(v[a][j])])])
+AsRatSeq(u) == Eager([i \in 1..Len(u) |-> RInt(u[i])])
 
 (* C43: the applied result for one evolution point.                               *)
 (*   g grid, deg interpolation degree, tgt target grid (<<>> = none)              *)
@@ -105,15 +106,44 @@ Applied(O, f, g, deg, tgt, rotate, qed) ==
   IN IF Len(tgt) = 0 THEN AsRat(r) ELSE ReinterpV(GetInterpolation(g, deg, tgt), r)
 
 -----------------------------------------------------------------------------
-(* C42: reshaping.  Flavour rotations are integer matrices with integer inverse.  *)
-MatVec(M, v) == Eager([a \in 1..Len(M) |-> Dot(M[a], v)])
+(* C42: reshaping.                                                               *)
 MatMul(A, B) ==
   Eager([a \in 1..Len(A) |-> Eager([b \in 1..Len(B[1]) |->
      ISumSeq([c \in 1..Len(B) |-> A[a][c] * B[c][b]])])])
-IsInverse(A, B) == MatMul(A, B) = Eager([a \in 1..Len(A) |-> Eager([b \in 1..Len(A) |-> IF a = b THEN 1 ELSE 0])])
+IsInverse(A, B) == MatMul(A, B) = IdMatrix
 
-(* flavour-reshaped operator O' = T O U^-1 : rotated-apply = apply-rotated         *)
-(*    O'(U f) = T (O f)    for every input f                                      *)
+(* contraction of a rational operator with an integer / rational input            *)
+ContractR(Or, fr, nout, nin) ==
+  Eager([a \in 1..NF |-> Eager([j \in 1..nout |->
+     RSumSeq([b \in 1..NF |->
+        RSumSeq([k \in 1..nin |-> RMul(Or[a][j][b][k], fr[b][k])])])])])
+
+(* flavour side: the reshaped operator O' (targetpids T, inputpids U) applied to    *)
+(* the rotated input U f gives the rotated output T (O f), for every input f        *)
 C42_FlavorCommutes(O, Onew, T, U, f, n) ==
-  Contract(Onew, Rotate(U, f, n), n) = Rotate(T, Contract(O, f, n), n)
+  ContractR(Onew, AsRat(Rotate(U, f, n)), n, n) = AsRat(Rotate(T, Contract(O, f, n), n))
+
+(* grid side.  The operator is  O[a][j][b][k] = M0[a][b][k] + M1[a][b][k] * Xj  with *)
+(* Xj = sc * x_j (so its output is a polynomial of degree <= 1 in x for any input);   *)
+(* the input is the polynomial  P_b(x) = sum_m p[b][m+1] x^m  of degree <= deg.        *)
+(* The re-interpolated operator, applied to the input sampled on the new input grid, *)
+(* must give the values of the output polynomial at the new target nodes.            *)
+PolyOn(p, grid) ==
+  Eager([b \in 1..NF |-> Eager([k \in 1..Len(grid) |-> EvalPoly(AsRatSeq(p[b]), grid[k])])])
+GridOperator(M0, M1, sc, grid) ==
+  Eager([a \in 1..NF |-> Eager([j \in 1..Len(grid) |-> Eager([b \in 1..NF |->
+     Eager([k \in 1..Len(M0[a][b]) |->
+        RAdd(RInt(M0[a][b][k]), RMul(RInt(M1[a][b][k]), RMul(RInt(sc), grid[j])))])])])])
+C42_GridExpected(M0, M1, sc, p, gold, tnew) ==
+  ContractR(GridOperator(M0, M1, sc, tnew), PolyOn(p, gold), Len(tnew), Len(gold))
+C42_GridCommutes(Onew, M0, M1, sc, p, gold, tnew, inew) ==
+  ContractR(Onew, PolyOn(p, inew), Len(tnew), Len(inew)) = C42_GridExpected(M0, M1, sc, p, gold, tnew)
+
+-----------------------------------------------------------------------------
+(* C42 law plan (mode L): logarithmic / linear random grids                        *)
+C42Sides == {"target", "input", "both"}
+C42Variants == {"random", "tinyx"}
+C42Cells ==
+  {c \in [mode : {"log", "lin"}, deg : 1..4, side : C42Sides, variant : C42Variants] :
+     c.variant = "tinyx" => c.mode = "log"}
 =============================================================================
